@@ -10,7 +10,7 @@ def check(run):
     run.prove(_tree_theorems.C06)
     rng = run.rng
     quick = run.tier == "quick"
-    nseq = 40 if quick else 400
+    nseq = 100 if quick else 1000
     kinds = ["set", "set", "del", "app", "app", "range", "range"]
     for backend in treegen.BACKENDS:
         seqs = []
